@@ -39,8 +39,11 @@ const (
 )
 
 var (
-	errUnknownTimerType = errors.New("unknown metric timer type")
-	ms                  = float64(time.Millisecond) / float64(time.Second)
+	errUnknownTimerType      = errors.New("unknown metric timer type")
+	errRegisteredAsOtherType = errors.New(
+		"a metric with the same name and tag keys was previously registered as a different timer/histogram type",
+	)
+	ms = float64(time.Millisecond) / float64(time.Second)
 )
 
 // DefaultHistogramBuckets is the default histogram buckets used when
@@ -470,6 +473,10 @@ func (r *reporter) summaryVec(
 	defer r.Unlock()
 
 	if s, ok := r.timers[id]; ok {
+		if s.summary == nil {
+			// n.b. Registered as a histogram, there is no summary to hand out.
+			return nil, errRegisteredAsOtherType
+		}
 		return s.summary, nil
 	}
 
@@ -502,6 +509,10 @@ func (r *reporter) histogramVec(
 	defer r.Unlock()
 
 	if h, ok := r.timers[id]; ok {
+		if h.histogram == nil {
+			// n.b. Registered as a summary, there is no histogram to hand out.
+			return nil, errRegisteredAsOtherType
+		}
 		return h.histogram, nil
 	}
 
